@@ -493,3 +493,109 @@ def rule_kron_layout(ctx: Ctx) -> None:
         ctx.fail("kron.layout", m, fn, "projectors_zbasis must return [P0, P1] with projector_ketz0 / projector_ketz1 at position measure_register "
                                        "and identities elsewhere (apply_measurement indexes the list by outcome)", func="projectors_zbasis",
                  construct="projectors_zbasis: layout / order")
+
+
+
+# --------------------------------------------------------------------------- C08 canonical comparison, node order
+
+
+def rule_canon_compare(ctx: Ctx) -> None:
+    """canon.compare: the sign vectors of two stabilizer tableaux are subtracted / compared only when BOTH tableaux were brought
+    to canonical form first — the order of generators (hence which sign belongs to which entry) is otherwise arbitrary."""
+    repo = ctx.repo
+    n = 0
+    for rel in (SRC, LCC):
+        m = repo.module(rel)
+        for fn in m.functions():
+            canon = set()
+            for st in ast.walk(fn):
+                if isinstance(st, ast.Assign) and isinstance(st.value, ast.Call) and call_attr(st.value) == "canonical_form" \
+                        and isinstance(st.targets[0], ast.Name):
+                    canon.add(st.targets[0].id)
+            other = {st.targets[0].id for st in ast.walk(fn) if isinstance(st, ast.Assign) and isinstance(st.targets[0], ast.Name)
+                     and not (isinstance(st.value, ast.Call) and call_attr(st.value) == "canonical_form")}
+            for node in ast.walk(fn):
+                pair = None
+                if isinstance(node, ast.BinOp) and isinstance(node.op, (ast.Sub, ast.BitXor, ast.Add)):
+                    pair = (node.left, node.right)
+                elif isinstance(node, ast.Compare) and len(node.ops) == 1 and isinstance(node.ops[0], (ast.Eq, ast.NotEq)):
+                    pair = (node.left, node.comparators[0])
+                if pair is None:
+                    continue
+                owners = []
+                for e in pair:
+                    if isinstance(e, ast.Attribute) and e.attr in ("phase", "_phase") and isinstance(e.value, ast.Name):
+                        owners.append(e.value.id)
+                    elif isinstance(e, ast.Name) and (e.id in canon or "tab" in e.id) and isinstance(node, ast.Compare):
+                        owners.append(e.id)
+                if len(owners) != 2 or owners[0] == owners[1]:
+                    continue
+                if not all(o in canon or o in other for o in owners):
+                    continue
+                n += 1
+                ctx.touch(m, fn)
+                loose = [o for o in owners if o not in canon or (o in other and o not in canon)]
+                # a name assigned both ways counts as loose only if its last assignment before this node is not canonical_form
+                def last_is_canon(name):
+                    best = None
+                    for st in ast.walk(fn):
+                        if isinstance(st, ast.Assign) and isinstance(st.targets[0], ast.Name) and st.targets[0].id == name and st.lineno <= node.lineno:
+                            if best is None or st.lineno > best.lineno:
+                                best = st
+                    return best is not None and isinstance(best.value, ast.Call) and call_attr(best.value) == "canonical_form"
+                loose = [o for o in owners if not last_is_canon(o)]
+                if len(loose) == 2:
+                    continue  # a deliberate raw comparison of two presentations (neither side claims canonical form)
+                if loose:
+                    ctx.fail("canon.compare", m, node,
+                             f"`{short(node, 90)}` combines the signs / generators of `{owners[0]}` and `{owners[1]}`, but {loose} was not brought to "
+                             f"canonical form first: the i-th sign of one tableau is matched with a different generator of the other, so the "
+                             f"computed sign correction is wrong for some states", func=qualname(fn),
+                             construct=f"{qualname(fn)}: {owners[0]} vs {owners[1]} without canonical_form on {loose}")
+                else:
+                    ctx.ok("canon.compare", m, node)
+    if n == 0:
+        raise AnalysisError("canon.compare: no tableau sign comparison found")
+
+
+def rule_node_order(ctx: Ctx) -> None:
+    """node.order: every graph -> state conversion indexes qubits by the graph's own node order (what nx.to_numpy_array uses by
+    default); a conversion that sorts the nodes, or passes its own nodelist, disagrees with its siblings for graphs whose nodes
+    were not inserted in sorted order."""
+    repo = ctx.repo
+    n = 0
+    for rel in (SRC, RC, "graphiq/backends/density_matrix/state.py", "graphiq/backends/graph/state.py", "graphiq/state.py"):
+        m = repo.module(rel)
+        for fn in m.functions():
+            for c in calls_in(fn, nested=False):
+                a = call_attr(c)
+                if a in ("to_numpy_array", "adjacency_matrix", "to_scipy_sparse_array"):
+                    n += 1
+                    nl = get_kw(c, "nodelist")
+                    if nl is not None and not (isinstance(nl, ast.Constant) and nl.value is None):
+                        ctx.fail("node.order", m, c, f"`{short(c)}` fixes its own node order; sibling conversions use the graph's node order",
+                                 func=qualname(fn), construct=f"{qualname(fn)}: nodelist={short(nl, 40)}")
+                    else:
+                        ctx.ok("node.order", m, c)
+                if isinstance(c.func, ast.Name) and c.func.id == "sorted" and c.args and ("nodes" in norm(c.args[0])):
+                    n += 1
+                    ctx.fail("node.order", m, c,
+                             f"{qualname(fn)} orders the graph's nodes with `{short(c)}`; graph_to_stabilizer, density_to_graph and the adjacency "
+                             f"matrices use the graph's own node order, so the representations describe different states for a graph whose nodes "
+                             f"were not inserted in sorted order", func=qualname(fn), construct=f"{qualname(fn)}: sorts the graph nodes")
+    fn = repo.anchor(SRC, "_graph_to_density_pure")
+    m = repo.module(SRC)
+    mp = [st for st in ast.walk(fn) if isinstance(st, ast.Assign) and isinstance(st.value, ast.Call) and call_attr(st.value) == "dict"
+          and st.value.args and isinstance(st.value.args[0], ast.Call) and call_attr(st.value.args[0]) == "zip"]
+    ok = False
+    if mp:
+        z = mp[0].value.args[0]
+        ok = len(z.args) == 2 and norm(z.args[0]).endswith(".nodes()") and norm(z.args[1]).startswith("range(")
+    n += 1
+    if ok:
+        ctx.ok("node.order", m, mp[0], what="qubit index = position in graph.nodes()")
+    else:
+        ctx.fail("node.order", m, fn, "_graph_to_density_pure must map node -> qubit as dict(zip(graph.nodes(), range(n))), the order every other "
+                                      "conversion uses", func="_graph_to_density_pure", construct="_graph_to_density_pure: node -> qubit mapping")
+    if n < 5:
+        raise AnalysisError("node.order: too few sites")
